@@ -9,10 +9,12 @@ prop = next(json.loads(l) for l in open(os.path.join(here, "..", "properties.jso
 text = f"{prop['id']} — {prop['title']}\n\nStatement: {prop['statement']}\n\nQuantified over: {prop['quantifier']['text']}\n"
 t = open(os.path.join(here, "SEED_PROMPT.tmpl")).read().replace("__WT__", wt).replace("__OUT__", out).replace("__PROP__", text)
 if "--different-from" in sys.argv:
-    prev = json.load(open(os.path.join(here, "..", "seeded", sys.argv[sys.argv.index("--different-from") + 1], "meta.json")))
-    t += ("\n\nA DIFFERENT CHANGE IS WANTED: an earlier exercise already produced this change for the same property, so do NOT "
-          f"repeat it or a close variant; pick another mechanism, preferably in another function or file:\n  earlier change: "
-          f"{prev['summary']}\n  it needed: {prev.get('what_it_needs_to_manifest')}\n")
+    ids = sys.argv[sys.argv.index("--different-from") + 1].split(",")
+    t += ("\n\nA DIFFERENT CHANGE IS WANTED: earlier exercises already produced the changes below for the same property, so do NOT "
+          "repeat them or close variants; pick another mechanism, preferably in another function or file:\n")
+    for i in ids:
+        prev = json.load(open(os.path.join(here, "..", "seeded", i, "meta.json")))
+        t += f"  earlier change: {prev['summary']}\n    it needed: {prev.get('what_it_needs_to_manifest')}\n"
 t += ("\nEnvironment note: on this CPU-only torch build two torch kernels are themselves broken (platform bugs, unrelated to your "
       "task): torch._weight_int8pack_mm segfaults for bfloat16 float activations x qint8 weights (avoid bfloat16 models with qint8 "
       "weights and non-quantized activations), and torch._int_mm returns garbage when in_features == 1. Avoid those combinations "
